@@ -314,6 +314,13 @@ class SoftwareSwitchBase (object):
           self.send_error(type=OFPET_BAD_ACTION, code=OFPBAC_BAD_TYPE,
                           ofp=ofp, connection=connection)
           return
+      # ...or a flow we'd be unable to report: its ofp_flow_stats entry
+      # (88 bytes + actions) must fit into one stats reply (12 byte header)
+      if 88 + sum(len(action) for action in ofp.actions) > 0xffff - 12:
+        self.log.warn("Too many actions")
+        self.send_error(type=OFPET_BAD_ACTION, code=OFPBAC_TOO_MANY,
+                        ofp=ofp, connection=connection)
+        return
     handler(flow_mod=ofp, connection=connection, table=self.table)
 
     if ofp.buffer_id is not None:
